@@ -149,7 +149,13 @@ impl Monitor for C04 {
                     if &i_.1 != token_in_denom || &o_.1 != token_out_denom {
                         return Err(viol("C04.route_chain", format!("hop {i} traded {}->{} but operation says {}->{}", i_.1, o_.1, token_in_denom, token_out_denom)));
                     }
-                    // each hop consumes exactly the previous hop's output
+                    // each hop consumes exactly the previous hop's output: same denom, same amount
+                    if i > 0 && hops[i - 1].out_denom != i_.1 {
+                        return Err(viol(
+                            "C04.route_chain",
+                            format!("hop {i} consumed {} but the previous hop produced {}", i_.1, hops[i - 1].out_denom),
+                        ));
+                    }
                     let expect_in = if i == 0 { m.get(token_in_denom).copied().unwrap_or(0) } else { hops[i - 1].out_amt };
                     if i_.0 != expect_in {
                         return Err(viol("C04.route_chain", format!("hop {i} consumed {} but previous output / offer was {}", i_.0, expect_in)));
